@@ -19,6 +19,8 @@ import (
 	"time"
 )
 
+var vJSONBuf = new(bytes.Buffer)
+
 type vMsg struct {
 	Exp []int `json:"exp"`
 	Buf []int `json:"buf"`
@@ -195,7 +197,8 @@ func vRunMsg(m vMsg, wantJSON, measure bool) (res vRes) {
 	}
 	res.NRec = len(msg.Flows)
 	if wantJSON && msg.Flows != nil { // what the worker does (vflow/netflow_v5.go)
-		b, jerr := msg.JSONMarshal(new(bytes.Buffer))
+		vJSONBuf.Reset() // one encode buffer for the life of the process, reset before every message: what the workers do
+		b, jerr := msg.JSONMarshal(vJSONBuf)
 		if jerr != nil {
 			res.JErr = jerr.Error()
 		} else {
